@@ -69,8 +69,13 @@ theorem natDigits_chars (n : Nat) : ∀ x ∈ F64.natDigits n, identChar x = tru
   unfold F64.natDigits
   exact natDigitsAux_chars _ _ [] (by simp)
 
+theorem jsname_ident {v : Bytes} (h : IsIdent v) {use : Bytes} (hu : ∀ x ∈ use, identChar x = true) (n : Nat) :
+    IsIdent (Scope.jsname v use n) := by
+  unfold Scope.jsname
+  exact ((h.append (by decide : ∀ x ∈ ([36] : Bytes), identChar x = true)).append hu).append (natDigits_chars n)
+
 theorem gen_ident {v : Bytes} (h : IsIdent v) (n : Nat) : IsIdent (Scope.gen v n) :=
-  h.append (natDigits_chars n)
+  jsname_ident h (by simp) n
 
 theorem isIdent_output : IsIdent b!"output" := ⟨111, _, rfl, by decide, by decide⟩
 theorem isIdent_param : IsIdent b!"param" := ⟨112, _, rfl, by decide, by decide⟩
@@ -276,9 +281,8 @@ theorem chars_List : ∀ x ∈ b!"List", identChar x = true := by decide
 
 theorem pushForRange_ok {sc : Scope} {v : Bytes} (h : ScopeOk sc) (hv : IsIdent v) :
     IsIdent (sc.pushForRange v).1.1 ∧ IsIdent (sc.pushForRange v).1.2 ∧ ScopeOk (sc.pushForRange v).2 := by
-  have d := natDigits_chars (sc.n + 1)
-  have h1 : IsIdent (v ++ F64.natDigits (sc.n + 1)) := hv.append d
-  have h2 : IsIdent (v ++ b!"Limit" ++ F64.natDigits (sc.n + 1)) := (hv.append chars_Limit).append d
+  have h1 : IsIdent (Scope.jsname v [] (sc.n + 1)) := jsname_ident hv (by simp) _
+  have h2 : IsIdent (Scope.jsname v b!"Limit" (sc.n + 1)) := jsname_ident hv chars_Limit _
   refine ⟨h1, h2, ?_⟩
   intro f hf
   simp only [Scope.pushForRange, List.mem_cons] at hf
@@ -289,11 +293,10 @@ theorem pushForRange_ok {sc : Scope} {v : Bytes} (h : ScopeOk sc) (hv : IsIdent 
 theorem pushForEach_ok {sc : Scope} {v : Bytes} (h : ScopeOk sc) (hv : IsIdent v) :
     IsIdent (sc.pushForEach v).1.1 ∧ IsIdent (sc.pushForEach v).1.2.1 ∧ IsIdent (sc.pushForEach v).1.2.2.1 ∧
       IsIdent (sc.pushForEach v).1.2.2.2 ∧ ScopeOk (sc.pushForEach v).2 := by
-  have d := natDigits_chars (sc.n + 1)
-  have h1 : IsIdent (v ++ F64.natDigits (sc.n + 1)) := hv.append d
-  have h2 : IsIdent (v ++ b!"Limit" ++ F64.natDigits (sc.n + 1)) := (hv.append chars_Limit).append d
-  have h3 : IsIdent (v ++ b!"Index" ++ F64.natDigits (sc.n + 1)) := (hv.append chars_Index).append d
-  have h4 : IsIdent (v ++ b!"List" ++ F64.natDigits (sc.n + 1)) := (hv.append chars_List).append d
+  have h1 : IsIdent (Scope.jsname v [] (sc.n + 1)) := jsname_ident hv (by simp) _
+  have h2 : IsIdent (Scope.jsname v b!"Limit" (sc.n + 1)) := jsname_ident hv chars_Limit _
+  have h3 : IsIdent (Scope.jsname v b!"Index" (sc.n + 1)) := jsname_ident hv chars_Index _
+  have h4 : IsIdent (Scope.jsname v b!"List" (sc.n + 1)) := jsname_ident hv chars_List _
   refine ⟨h1, h4, h2, h3, ?_⟩
   intro f hf
   simp only [Scope.pushForEach, List.mem_cons] at hf
